@@ -8,7 +8,8 @@ RULE = ("generated programs x seeded comment placements K (full-line before/afte
         "sequence of (statement | comment text) in the tree equals the sequence by construction (a comment inside or trailing a "
         "continued statement directly after it), each comment once, text unchanged, also in str(tree); tree(P+K, ignore) == tree(P); "
         "tree(P+K, process_directives) == tree(P+K, keep) with Directive for Comment exactly on directive-form full-line comments. "
-        "non-trivial = >= 5 comments of which >= 1 inside a continuation or trailing")
+        "non-trivial = >= 5 comments of which >= 1 inside a continuation or trailing"
+        ' Correspondence: Fp.Reader item stream == real reader on every second commented source (both comment settings).')
 ASSUMPTIONS = []
 TIE_MODULES = ["FparserModel.Reader", "FparserModel.Block"]
 
@@ -66,6 +67,9 @@ def run_case(case):
         known = findings.classify("C11", src, ctx)
         res["findings"].append({"signature": known or sig, "what": what, "replay": {"case": case, "source": src, "canonical": canon}})
 
+    if case["seed"] % 2 == 1:
+        res["findings"] += util.reader_cosim(src, "free", case=case)
+        res["counts"]["reader-cosim"] = 1
     # (a) ignored without effect
     oi = real.try_parse(src, std=std, ignore_comments=True, free=True)
     if oi.kind != "tree":
